@@ -6,10 +6,10 @@ def plan(ctx):
     seed, tier = ctx["seed"], ctx["tier"]
     items = []
     if tier == "quick":
-        pools = [("mutation", 800)]
+        pools = [("mutation", 800), ("assignorder", 200)]
         cap = 20.0
     else:
-        pools = [("mutation", 6000), ("widemutation", 2000)]
+        pools = [("mutation", 6000), ("widemutation", 2000), ("assignorder", 1000)]
         cap = 120.0
     for profile, n in pools:
         for i in range(n):
